@@ -226,11 +226,13 @@ CHECKS = {
             {"module": "rueidis", "scenario": "at-most-once", "variant": "enum:slow", "quick": 1024, "thorough": 25600},
             {"module": "rueidis", "scenario": "cluster", "variant": "faults", "quick": 800, "thorough": 80000},
             {"module": "rueidis", "scenario": "cluster", "variant": "change", "quick": 500, "thorough": 50000},
+            {"module": "rueidis", "scenario": "sentinel-follow", "quick": 2000, "thorough": 150000},
+            {"module": "rueidis", "scenario": "standalone-route", "quick": 2000, "thorough": 150000},
         ],
         "expected_probes": ["executed-but-unanswered", "request-lost", "conn-lifetime-configured"],
         "components": {"real": REAL, "stubs": STUBS},
         "assumptions": [
-            "single-node and cluster front-ends (cluster: a non-retryable write is executed at most once however it is redirected, retried or cut by faults); standalone and sentinel front-ends not yet",
+            "all four front-ends: single node; cluster (a non-retryable write is executed at most once however it is redirected, retried or cut by faults); sentinel and standalone with replicas (connection resets incl. reset-after-execution, fail-overs, role flips: per command id the model executed a write that is neither read-only nor retryable at most once); EnableRedirect and ConnLifetime are not exercised on the sentinel and standalone clients",
             "bytes the client wrote before closing a connection are still delivered to the server (as TCP does), so a re-sent command can overtake its original",
         ],
     },
@@ -497,10 +499,12 @@ CHECKS = {
             {"module": "rueidis", "scenario": "retry-policy", "quick": 8000, "thorough": 600000},
             {"module": "rueidis", "scenario": "cluster", "variant": "change", "quick": 1000, "thorough": 100000},
             {"module": "rueidis", "scenario": "cluster", "variant": "faults", "quick": 600, "thorough": 60000},
+            {"module": "rueidis", "scenario": "sentinel-follow", "quick": 2000, "thorough": 150000},
+            {"module": "rueidis", "scenario": "standalone-route", "quick": 2000, "thorough": 150000},
         ],
         "expected_probes": ["command-sent-more-than-once", "retry-delay-said-stop", "loading-replies"],
         "components": {"real": REAL, "stubs": STUBS},
-        "assumptions": ["single-node and cluster front-ends (cluster part: a command is re-sent after LOADING/TRYAGAIN/CLUSTERDOWN or a transport error only if it is read-only or retryable, never with DisableRetry, and at most as often as RetryDelay returned a non-negative delay for it); standalone and sentinel retry loops are not exercised yet"],
+        "assumptions": ["single-node and cluster front-ends (cluster part: a command is re-sent after LOADING/TRYAGAIN/CLUSTERDOWN or a transport error only if it is read-only or retryable, never with DisableRetry, and at most as often as RetryDelay returned a non-negative delay for it); sentinel and standalone parts: a command is sent again after a non-redirect answer only if it is read-only or retryable (a batch: all of them) and never with DisableRetry; the RetryDelay bookkeeping is judged on the single-node and cluster clients only"],
     },
     "C26": {
         "level": "exploration",
